@@ -96,7 +96,11 @@ def run(item):
         info = {}
         supplied = {}
 
+        armed = [False]
+
         def failing(x):
+            if not armed[0]:
+                return None          # the earlier load of the history below
             i = count[0]
             count[0] += 1
             # symbolic selector: fail on exactly one processed element
@@ -125,6 +129,20 @@ def run(item):
             mm.register_obj_processors({'Val': proc, 'Box': proc})
         else:
             mm.register_obj_processors({'Num': proc})
+        # by selector the same metamodel has loaded another text before, under the same file name: the same
+        # tokens at the same offsets, but on other lines (spaces <-> newlines)
+        info['prior'] = c.branch(z3.Bool('prior_load_same_name_other_layout'))
+        if info['prior']:
+            other = text.replace(' ', chr(10))
+            if from_file:
+                with open(fn, 'w') as f_:
+                    f_.write(other)
+                mm.model_from_file(fn)
+                with open(fn, 'w') as f_:
+                    f_.write(text)
+            else:
+                mm.model_from_str(other)
+        armed[0] = True
         try:
             if from_file:
                 mm.model_from_file(fn)
@@ -176,7 +194,7 @@ def run(item):
             expect('nchar', err.nchar, supplied['nchar'].t, 'supplied')
         if problems:
             return ('bad', {'problems': problems, 'index': info['index'], 'supplied': sorted(supplied),
-                            'what': info.get('what', info.get('value'))})
+                            'what': info.get('what', info.get('value')), 'prior': info.get('prior', False)})
         return ('ok', None)
     try:
         outs = ctx.explore(path)
@@ -204,7 +222,7 @@ def classify(b):
     return None
 
 
-def replay_case(item, index, supplied_fields):
+def replay_case(item, index, supplied_fields, prior=False):
     """concrete replay: the same failure with concrete supplied values"""
     ti, target, wrap, from_file = item[:4]
     grammar_file = len(item) > 5 and item[5]
@@ -223,7 +241,11 @@ def replay_case(item, index, supplied_fields):
     count = [0]
     info = {}
 
+    armed = [False]
+
     def failing(x):
+        if not armed[0]:
+            return None
         i = count[0]
         count[0] += 1
         if i != index:
@@ -235,6 +257,17 @@ def replay_case(item, index, supplied_fields):
         raise TextXError('boom', **{k: vals[k] for k in supplied_fields})
     proc = textxerror_wrap(failing) if wrap else failing
     mm.register_obj_processors({'Val': proc, 'Box': proc} if target == 'obj' else {'Num': proc})
+    if prior:
+        other = text.replace(' ', chr(10))
+        if from_file:
+            with open(fn, 'w') as f_:
+                f_.write(other)
+            mm.model_from_file(fn)
+            with open(fn, 'w') as f_:
+                f_.write(text)
+        else:
+            mm.model_from_str(other)
+    armed[0] = True
     try:
         try:
             mm.model_from_file(fn) if from_file else mm.model_from_str(text)
@@ -299,7 +332,7 @@ def main():
             if 'index' not in b:
                 chk.violation('%s: %s' % (r['case'], b), {'item': r['item'], 'detail': b})
                 continue
-            bad, detail = replay_case(r['item'], b['index'], b.get('supplied', []))
+            bad, detail = replay_case(r['item'], b['index'], b.get('supplied', []), b.get('prior', False))
             chk.cov['traces_validated_against_impl'] += 1
             if not bad:
                 chk.cov['model_mismatches'] += 1
@@ -316,7 +349,7 @@ def main():
             if len(chk.violations) < 6:
                 chk.violation('%s, failing element #%d (%s), processor supplied %s: %s' % (
                     r['case'], b['index'], b.get('what'), b.get('supplied'), detail),
-                    {'item': r['item'], 'index': b['index'], 'supplied': b.get('supplied', [])})
+                    {'item': r['item'], 'index': b['index'], 'supplied': b.get('supplied', []), 'prior': b.get('prior', False)})
         chk.sample({'case': r['case'], 'paths': r['paths'], 'discharged': r['ok']})
     chk.cov['paths_explored'] = paths
     chk.cov['distinct_nontrivial'] = paths
@@ -328,4 +361,4 @@ def main():
 
 
 def replay(data):
-    return replay_case(data['item'], data['index'], data.get('supplied', []))
+    return replay_case(data['item'], data['index'], data.get('supplied', []), data.get('prior', False))
